@@ -585,10 +585,17 @@ def scoping_programs(export=("ExportJson", "ExportProvn")):
                 p.append(["NewRecord", b, "Activity", ["S", "ex:a1"], []])
                 p.append(["NewRecord", b, "Generation", "none",
                           [[["Q", "prov", PROV, "entity"], ["str", "ex:e1"]], [["Q", "prov", PROV, "activity"], ["str", "ex:a1"]]]])
+                # a mention inside the bundle: all three of its names (the bundle argument too) are names of the bundle's scope
+                p.append(["NewRecord", b, "Mention", "none",
+                          [[["Q", "prov", PROV, "specificEntity"], ["str", "ex:e1"]], [["Q", "prov", PROV, "generalEntity"], ["str", "ex:e0"]],
+                           [["Q", "prov", PROV, "bundle"], ["str", "ex:bb"]]]])
                 if doc_default:
                     p.append(["NewRecord", ["d", "0"], "Entity", ["S", "bare1"], []])
                 if doc_default or bundle_default:
                     p.append(["NewRecord", b, "Entity", ["S", "bare2"], [[["S", "ex:k"], ["str", "x"]]]])
+                    p.append(["NewRecord", b, "Mention", "none",
+                              [[["Q", "prov", PROV, "specificEntity"], ["str", "bare2"]], [["Q", "prov", PROV, "generalEntity"], ["str", "ex:e0"]],
+                               [["Q", "prov", PROV, "bundle"], ["str", "bareb"]]]])
                 for e in export:
                     p.append([e, "0"])
                 out.append(p)
